@@ -70,6 +70,8 @@ var ops = []opT{
 	{"ReadFrom(len 1)", "lenreader", 1}, {"ReadFrom(len 2)", "lenreader", 2}, {"ReadFrom(len 3)", "lenreader", 3}, {"ReadFrom(len 5)", "lenreader", 5},
 	{"ReadFrom(plain 1)", "plainreader", 1}, {"ReadFrom(plain 2)", "plainreader", 2}, {"ReadFrom(plain 3)", "plainreader", 3}, {"ReadFrom(plain 5)", "plainreader", 5},
 	{"ReadFrom(fails after 2)", "errreader", 2},
+	// io.LimitedReader over a reader of unknown length: its N is a cap, not the length of the body
+	{"ReadFrom(limited plain 2)", "limitreader", 2}, {"ReadFrom(limited plain 3)", "limitreader", 3},
 }
 
 func (c cfg) conf() string {
@@ -264,6 +266,8 @@ func execute(w coraza.WAF, c cfg, hist []int, report func(sig, text string)) (ke
 				r = plainReader{bytes.NewReader(data)}
 			case "errreader":
 				r = &errReader{data: data}
+			case "limitreader":
+				r = io.LimitReader(plainReader{bytes.NewReader(data)}, int64(len(data))+100)
 			}
 			var it *types.Interruption
 			var n int
@@ -310,6 +314,26 @@ func execute(w coraza.WAF, c cfg, hist []int, report func(sig, text string)) (ke
 			}
 			if rd != fmt.Sprintf("%q", m.stored) {
 				report("stored-bytes-differ:"+spillClass(c), fmt.Sprintf("after %s the body reader yields %s, the model holds %q (limit %d, memory limit %d)", o.name, rd, m.stored, c.L, c.M))
+			}
+			// the same through a reader that is first read a byte and then drained with io.Copy (which prefers WriterTo)
+			{
+				var rr io.Reader
+				if c.Side == "req" {
+					rr, _ = tx.RequestBodyReader()
+				} else {
+					rr, _ = tx.ResponseBodyReader()
+				}
+				if rr != nil {
+					var got bytes.Buffer
+					one := make([]byte, 1)
+					if n, _ := rr.Read(one); n == 1 {
+						got.Write(one)
+					}
+					_, _ = io.Copy(&got, rr)
+					if got.String() != string(m.stored) {
+						report("stored-bytes-differ:read-then-copy:"+spillClass(c), fmt.Sprintf("after %s a body reader read one byte and then drained by io.Copy yields %q, the model holds %q (limit %d, memory limit %d)", o.name, got.String(), m.stored, c.L, c.M))
+					}
+				}
 			}
 			flag := tv.InboundDataError().Get()
 			if c.Side == "resp" {
